@@ -80,6 +80,23 @@ def _main_loop(ck, prog):
     finit = [s for s in pre if isinstance(s, ast.Assign) and unparse(s.targets[0]) == "f"]
     ck.ob("TEMPLATE-loop", construct, len(finit) == 1 and unparse(finit[0].value).replace(" ", "") in ("np.exp(1)", "np.e", "math.e", "np.exp(1.0)"),
           expected="f starts at e", found=[unparse(s.value) for s in finit], slot="f-initial", where=f.loc())
+    # ---- (1a) every run starts from empty histograms: g and H are new all-zero vectors of nbins_actual entries
+    for nm in ("g", "H"):
+        asg = [s for s in pre if isinstance(s, ast.Assign) and len(s.targets) == 1 and unparse(s.targets[0]) == nm]
+        ck.shape(len(asg) == 1, "run_normal_WL: %s initialised once before the loop" % nm, f.loc())
+        v0 = asg[0].value
+        if is_self_attr(v0):
+            # bound to a field that this run has just (re)created as a zero vector: still a fresh start
+            prior = [s2 for s2 in pre if isinstance(s2, ast.Assign) and s2.lineno < asg[0].lineno and any(is_self_attr(t2, v0.attr) for t2 in s2.targets)]
+            if prior:
+                v0 = prior[-1].value
+        t0 = unparse(v0).replace(" ", "")
+        zero_forms = ("[0]*self.nbins_actual", "[0.0]*self.nbins_actual", "self.nbins_actual*[0]", "np.zeros(self.nbins_actual)", "list(np.zeros(self.nbins_actual))",
+                      "[0for_inrange(self.nbins_actual)]", "[0]*len(bincts)", "np.zeros(len(bincts))")
+        carried = any(is_self_attr(n) and n.attr not in ("nbins_actual", "nbins_target") for n in ast.walk(v0)) and "zeros" not in t0 and "[0" not in t0
+        ck.shape(t0 in zero_forms or carried, "run_normal_WL: %s starts as a zero vector in a recognised form (%s)" % (nm, unparse(asg[0].value)), f.loc(asg[0]))
+        ck.ob("TEMPLATE-start", construct, t0 in zero_forms, expected="%s = [0] * nbins_actual at the start of every run" % nm, found=unparse(asg[0].value), slot="zero-" + nm, where=f.loc(asg[0]),
+              note="a histogram kept on the machine between runs makes the second run continue from the first one's estimate")
     # ---- (1b) start state
     src = {unparse(s.targets[0]): s for s in pre if isinstance(s, ast.Assign)}
     ck.shape("oseq" in src and isinstance(src["oseq"].value, ast.Call) and prog.class_of_ctor(f.mod, src["oseq"].value) == "Sequence",
